@@ -334,6 +334,11 @@ func ocspHandlerFor(b ocspBehav, cert, issuer *Cert) (rtHandler, string) {
 		return func(*http.Request) (*http.Response, error) { return httpBody(500, nil) }, "UErr"
 	case "http302":
 		return func(*http.Request) (*http.Response, error) { return httpBody(302, nil) }, "UErr"
+	case "http500-good-body", "http404-good-body", "http201-good-body":
+		// an authentic, current Good response delivered with a status other than 200: not a successful response
+		der, _ := forgeOCSP(ocspBehav{Kind: "resp", Signer: "issuer", Serial: "match", Status: ocsp.Good, Next: "+1h", Inv: "none"}, cert, issuer)
+		code := map[string]int{"http500-good-body": 500, "http404-good-body": 404, "http201-good-body": 201}[b.Kind]
+		return func(*http.Request) (*http.Response, error) { return httpBody(code, der) }, "UErr"
 	case "empty":
 		return func(*http.Request) (*http.Response, error) { return httpBody(200, nil) }, "UErr"
 	case "garbage":
